@@ -304,6 +304,7 @@ pub fn txw_lines(side: usize, c: &Case, o: &Outcome) -> (String, String, Vec<(St
                             max_rwnd = max_rwnd.max(arw);
                             let newer = match best.0 { Some(old) => !tsn_gt(old, cum), None => true };
                             if newer {
+                                if best.0 != Some(cum) { t3_count = 0; }   // the T3 excuse counts expiries since the last SACK that moved the cumulative TSN
                                 // at an unchanged cumulative TSN the receiver's window can only have shrunk
                                 best = (Some(cum), if best.0 == Some(cum) { best.1.min(arw) } else { arw });
                                 unacked.retain(|e| tsn_gt(e.0, cum));
